@@ -60,7 +60,8 @@ def FrameOut (c : Codec) (t : Transport) (B T : Bytes) (fs : List Frame) (unmask
       res.1.header = none ∧ res.1.inBuf ++ dataOf res.2.1.rd ++ T = encodeAll fs' ∧
       res.2.1.rd <:+ t.rd) ∨
    (t.rdDef = .err .wouldBlock ∧ res.2.2 = .err (.io .wouldBlock) ∧
-      Rep res.1 (B ++ dataOf t.rd) ∧ res.2.1.rd = []) ∨
+      Rep res.1 (B ++ dataOf t.rd) ∧ res.2.1.rd = [] ∧
+      shot usizeMax (B ++ dataOf t.rd) = .needMore) ∨
    (t.rdDef = .eof ∧ res.2.2 = .ok none ∧ Rep res.1 B ∧ res.2.1.rd = [] ∧
       shot usizeMax B = .needMore))
 
@@ -100,8 +101,8 @@ theorem readFrame_block {sender : Role} (c : Codec) (t : Transport) (B T : Bytes
           exact List.length_eq_zero_iff.mp (by omega)
     rw [hnil] at hB'
     simp only [dataOf, List.append_nil] at hB'
-    rw [hB'] at hrep'
-    exact ⟨hdef, hres, hrep', hnil⟩
+    rw [hB'] at hrep' hs'
+    exact ⟨hdef, hres, hrep', hnil, hs'⟩
   · exfalso
     rcases shot_stream fs hl _ T hS with ⟨h1, _⟩ | ⟨f, fs', rest', _, h1, _⟩
     · rw [hs] at h1; cases h1
@@ -188,7 +189,8 @@ def ReadCases (w : World) (B T : Bytes) (fs : List Frame) (res : World × Res Me
       OnFrameOut (w.readPre.1.setCodec c' t') (viewOf f) w2 m) ∨
   (w.readPre.2 = .ok () ∧ w.t.rdDef = .err .wouldBlock ∧ ∃ c' t',
       res = (w.readPre.1.setCodec c' t', .err (.io .wouldBlock)) ∧
-      CSame w.readPre.1.c.codec c' ∧ t'.rd = [] ∧ Rep c' (B ++ dataOf w.t.rd)) ∨
+      CSame w.readPre.1.c.codec c' ∧ t'.rd = [] ∧ Rep c' (B ++ dataOf w.t.rd) ∧
+      shot usizeMax (B ++ dataOf w.t.rd) = .needMore) ∨
   (w.readPre.2 = .ok () ∧ w.t.rdDef = .eof ∧ fs = [] ∧ ∃ c' t',
       res = ((w.readPre.1.setCodec c' t').setState .terminated, .err .connectionClosed) ∧
       CSame w.readPre.1.c.codec c' ∧ t'.rd = [])
@@ -244,7 +246,7 @@ theorem read_cases {sender : Role} (w : World) (B T : Bytes) (fs : List Frame)
     unfold FrameOut at hFO
     dsimp only at hFO ⊢
     obtain ⟨hcs, hcases⟩ := hFO
-    rcases hcases with ⟨f, fs', hfs, hres, hhd, hrest, hsuf⟩ | ⟨hd, hres, hrepS, hnil⟩ |
+    rcases hcases with ⟨f, fs', hfs, hres, hhd, hrest, hsuf⟩ | ⟨hd, hres, hrepS, hnil, hshotS⟩ |
       ⟨hd, hres, hrepB, hnil, hshot⟩
     · -- a complete frame
       left
@@ -267,8 +269,9 @@ theorem read_cases {sender : Role} (w : World) (B T : Bytes) (fs : List Frame)
       right; left
       subst hres
       dsimp only [World.checkConnectionReset, andThen]
-      refine ⟨rfl, hdef1.symm.trans hd, c', t', rfl, hcs, hnil, ?_⟩
-      rw [← hrd1]; exact hrepS
+      refine ⟨rfl, hdef1.symm.trans hd, c', t', rfl, hcs, hnil, ?_, ?_⟩
+      · rw [← hrd1]; exact hrepS
+      · rw [← hrd1]; exact hshotS
     · -- end of the transport
       right; right
       subst hres
@@ -292,5 +295,30 @@ theorem read_cases {sender : Role} (w : World) (B T : Bytes) (fs : List Frame)
       rw [Progress.onEof_closeReceived _ hcr]
       dsimp only [andThen]
       exact ⟨rfl, hdw, hfs, c', t', rfl, hcs, hnil⟩
+
+/-- two representations of the same codec state agree on whether a frame is complete -/
+theorem rep_needMore {c : Codec} {B B' : Bytes} (m : Nat) (h : Rep c B) (h' : Rep c B')
+    (hs : shot m B = .needMore) : shot m B' = .needMore := by
+  cases hh : c.header with
+  | none =>
+    have e1 : B = c.inBuf := by simpa only [Rep, hh] using h
+    have e2 : B' = c.inBuf := by simpa only [Rep, hh] using h'
+    rw [e2, ← e1]; exact hs
+  | some hl =>
+    obtain ⟨hd, len⟩ := hl
+    obtain ⟨n, hp, _, hdrop⟩ := Rep_parse h hh
+    obtain ⟨n', hp', _, hdrop'⟩ := Rep_parse h' hh
+    unfold shot at hs ⊢
+    rw [hp] at hs
+    rw [hp']
+    dsimp only at hs ⊢
+    rw [hdrop] at hs
+    rw [hdrop']
+    by_cases h1 : len > m
+    · rw [if_pos h1] at hs; cases hs
+    · rw [if_neg h1] at hs ⊢
+      by_cases h2 : len ≤ c.inBuf.length
+      · rw [if_pos h2] at hs; cases hs
+      · rw [if_neg h2]
 
 end WsProofs.Pair
